@@ -7,6 +7,7 @@ from .. import build, cppdrv, gen, monitors, oracle as O, probes
 from . import common as K
 
 ID = "C02"
+REACH_TARGETS = [('cpp.BasicBlock.compile', 'formak.cpp:BasicBlock.compile'), ('cpp.EKF._translate_control_covariance', 'formak.cpp:ExtendedKalmanFilter._translate_control_covariance'), ('cpp.EKF.reading_types', 'formak.cpp:ExtendedKalmanFilter.reading_types')]
 LEVEL = "exploration"
 RULE = ("random definitions with identifier-safe names in all four control x calibration presence combinations, "
         "0-3 sensors x 1-4 readings, both CSE settings, EKF generator (every unit) and Model generator (every "
